@@ -1,6 +1,6 @@
 //@props C11
-//@allow-replace `eq` => `shim_eq` :: rename of the provided trait method Iterator::eq, which Verus can neither call nor specify; the assumed contract is on ShimIterEq::shim_eq (spec/lib/iter_shims.rs)
-//@allow-delete-attr derive|non_exhaustive|error :: thiserror's derive output and its helper attributes are outside Verus; the enum's variants and fields are kept
+//@rewrite `.eq(` => `.shim_eq(` :: rename of the provided trait method Iterator::eq, which Verus can neither call nor specify; the assumed contract is on ShimIterEq::shim_eq (spec/lib/iter_shims.rs)
+//@strip-attrs derive|non_exhaustive|error :: thiserror's derive output and its helper attributes are outside Verus; the enum's variants and fields are kept
 // Unit c11: bindgroup::get_bind_group_data against the complete C11 contract.
 #![feature(allocator_api)]
 #![allow(unused_imports, unused_variables, unused_mut, dead_code, unused_braces, unused_parens)]
@@ -21,23 +21,22 @@ use iter_shims::*;
 verus! {
 
 //@item lib.rs::enum CreateModuleError
-‹#[derive(Debug, Error)]
-#[non_exhaustive]›pub enum CreateModuleError {
+pub enum CreateModuleError {
     /// Bind group sets must be consecutive and start from 0.
     /// See `bind_group_layouts` for
     /// [PipelineLayoutDescriptor](https://docs.rs/wgpu/latest/wgpu/struct.PipelineLayoutDescriptor.html#).
-    ‹#[error("bind groups are non-consecutive or do not start from 0")]›NonConsecutiveBindGroups,
+    NonConsecutiveBindGroups,
 
     /// Each binding resource must be associated with exactly one binding index.
-    ‹#[error("duplicate binding found with index `{binding}`")]›DuplicateBinding { binding: u32 },
+    DuplicateBinding { binding: u32 },
 
     /// The shader source could not be parsed.
-    ‹#[error("failed to parse: {error}")]›ParseError {
+    ParseError {
         error: naga::front::wgsl::ParseError,
     },
 
     /// The shader source could not be validated.
-    ‹#[error("failed to validate: {error}")]›ValidationError {
+    ValidationError {
         error: WithSpan<naga::valid::ValidationError>,
     },
 }
@@ -339,7 +338,7 @@ pub fn get_bind_group_data(
             }
         }
         lemma_keys_dense(module, gs, ks, n);
-    } __m }».‹eq›«shim_eq»(0..groups.len()) {
+    } __m }».shim_eq(0..groups.len()) {
         «proof {
             let ks = gk.remaining();
             let ms = gm.remaining();
